@@ -8,21 +8,21 @@ NOTES = {
     "C01": "PowerRow / TupleMatrix transposed axpy, BCSR dense-y early-out",
     "C02": "transpose dims x2, permute entry-free x2, CSCR<->CSR empty rows x2, increase_memory(nullptr)",
     "C03": "fixed: row_norm2sqr scaling index, BCSR row_norm2 sqrt; known: entry-free CSR / BCSR operands",
-    "C04": "fixed: sparse min/max scan, SVB realloc write; known: min/max with an empty leaf",
+    "C04": "fixed: sparse min/max scan, SVB realloc write, blocked<->flat convert of empty vectors; known: min/max with an empty leaf",
     "C05": "mtx reader empty rows, mtx writer / operator== entry-free, exp size 0, sv mtx size 0, 16 MiB stack buffer, SaddlePointMatrix checkpoint size",
     "C06": "fixed: UnitFilterBlocked ctor; known: filter_mat on entry-free matrices",
     "C07": "fixed: RGCR done_numeric keeps recycled directions, multigrid NaN step; known: 11 solver defect classes (see 12.3)",
     "C08": "BCSR SSOR scaling, block ILU multiplication side, additive Vanka NaN for DOFs in no block",
     "C09": "NaN step length for a vanishing correction",
-    "C10": "triangle edge flip, SurfaceMesh inverted assertion",
+    "C10": "triangle edge flip, SurfaceMesh inverted assertion, colouring terminator of create_colored",
     "C11": "fixed: SurfaceMesh newline, dup chart, mapping dim, surfmesh index, Bezier points; known: 10 parser classes",
     "C12": "known: PartiIterative centre retry",
-    "C13": "-",
+    "C13": "Global::Vector::max/min_element did not compile, empty vector ticket aborted in wait()",
     "C14": "4 rule tables, AutoAlias empty part",
     "C15": "known: Math::invert_matrix pivoting (Argyris), Q1TBNP hexahedron gradient, CaiDouSanSheYe functional (repairs withdrawn, see 12.6)",
-    "C16": "TrialDerivativeOperator, StrainRateTensor K(6,2), voxel Burgers Frechet term",
+    "C16": "TrialDerivativeOperator, StrainRateTensor K(6,2), voxel Burgers Frechet term, TraceAssembler::clear facet mask, DomainAssembler::clear element mask",
     "C17": "1 worker abort, 0 worker out_of_range, colored / no-scatter deadlock",
-    "C18": "-",
+    "C18": "transfer_intermesh_vector stale cell map, transfer_intermesh_vector_direct did not compile",
     "C19": "graph render without edges, CM root/level, empty permutation, CompositeAdjactor begin",
     "C20": "SparseLayout move-assign leak (+ the C02 null-array fix)",
 }
